@@ -20,6 +20,13 @@ instance {α} [BEq α] : BEq (R α) where
     | .error e, .error f => e == f
     | _, _ => false
 
+instance {α} [DecidableEq α] : DecidableEq (R α) := fun x y =>
+  match x, y with
+  | .ok a, .ok b => if h : a = b then isTrue (by rw [h]) else isFalse (by intro h'; cases h'; exact h rfl)
+  | .error e, .error f => if h : e = f then isTrue (by rw [h]) else isFalse (by intro h'; cases h'; exact h rfl)
+  | .ok _, .error _ => isFalse (by intro h; cases h)
+  | .error _, .ok _ => isFalse (by intro h; cases h)
+
 /-- `"ACGT".index(c)` (`none` = `ValueError`). -/
 def nucIdx (c : Char) : Option Nat :=
   if c = 'A' then some 0 else if c = 'C' then some 1 else if c = 'G' then some 2
